@@ -23,15 +23,15 @@ type linRecorder struct {
 }
 
 type linOp struct {
-	node   uint64
-	write  bool
-	key    int
-	val    int // write: tag; read: value observed
-	call   int
-	ret    int // -1 = pending
-	rindex uint64
-	ctx    int
-	dead   bool
+	node     uint64
+	write    bool
+	key      int
+	val      int // write: tag; read: value observed
+	call     int
+	ret      int // -1 = pending
+	rindex   uint64
+	ctx      int
+	dead     bool
 	hasIndex bool
 }
 
